@@ -44,6 +44,9 @@ def run_one(sid, tier, props_override=None):
             return dict(id=sid, error="apply: " + r.stdout)
         if os.path.exists(demo):
             out["demo_mutated"] = sh(["/venv/bin/python", demo], env=env).returncode
+        if TESTS:
+            r = sh(["python3", os.path.join(HERE, "tools", "baseline_check.py"), wt])
+            out["baseline_tests"] = r.stdout.strip().splitlines()[0] if r.stdout.strip() else "?"
         for p in props:
             e = dict(os.environ, VERIF_REPO=wt)
             r = sh(["python3", os.path.join(HERE, "check.py"), p, "--tier", tier], env=e, cwd=HERE)
@@ -55,8 +58,15 @@ def run_one(sid, tier, props_override=None):
     return out
 
 
+TESTS = False
+
+
 def main():
+    global TESTS
     args = sys.argv[1:]
+    if "--tests" in args:
+        TESTS = True
+        args.remove("--tests")
     tier = "quick"
     props = None
     ids = []
@@ -84,6 +94,8 @@ def main():
     if os.path.exists(path):
         old = {r["id"]: r for r in json.load(open(path))}
     for r in results:
+        if r["id"] in old and "baseline_tests" in old[r["id"]] and "baseline_tests" not in r:
+            r["baseline_tests"] = old[r["id"]]["baseline_tests"]
         old[r["id"]] = r
     json.dump(sorted(old.values(), key=lambda r: r["id"]), open(path, "w"), indent=1)
 
